@@ -28,9 +28,9 @@ def run(rep: Report, repo: Repo):
         'backslash and the terminating blank; the bench transformer creates cell + same-named fork and connects drivers in argument order; '
         'the branch-fork option inserts exactly one fork and one line per reader.')
     rep.trusted = ['lark LALR compilation of the grammar constants', 'techlib pin tables (C19)', 'circuit constructors (C09)']
-    rep.assumptions = ['NOT DECIDED: equality of the simulated and the described Boolean function for arbitrary netlist texts, statement orders, '
-                       'declaration styles, whitespace/comment placement; equivalence of the two formats; lexer ambiguities. A change that only breaks '
-                       'those (e.g. in the multi-pass bookkeeping of driven signals / assigns) is not detected.']
+    rep.assumptions = ['BOUNDED: the netlist built by the Verilog transformer is compared with the meaning of the text for a family of 30 module descriptions (C11.netlist); '
+                       'texts outside that family (other statement orders, declaration styles, chained assigns), whitespace/comment placement beyond C11.lexical, '
+                       'equivalence of the two formats and the bench transformer beyond its structural rule are NOT decided.']
     vmod, bmod = repo.mod('verilog'), repo.mod('bench')
     vtext, vg = grammar.extract_grammar(vmod)
     VG = grammar.Grammar(vtext, 'verilog')
